@@ -104,14 +104,14 @@ func RunCLIHook(p *Program, spec world.Spec, hook func(w *world.World, op *world
 
 // APIResult is the outcome of one library call.
 type APIResult struct {
-	Out     []byte
-	Err     string
-	IsErr   bool
-	Panic   string
-	Stack   string
-	NoProg  bool
-	Spin    string
-	Steps   uint64
+	Out    []byte
+	Err    string
+	IsErr  bool
+	Panic  string
+	Stack  string
+	NoProg bool
+	Spin   string
+	Steps  uint64
 }
 
 func (r APIResult) Key() string {
